@@ -491,14 +491,17 @@ func (mr *msgReader) read(p []byte) (int, error) {
 		}
 
 		n, err := mr.c.readFramePayload(mr.ctx, p)
-		if err != nil {
-			return n, err
-		}
 
+		// The bytes that were read are handed to the caller even if the read
+		// failed so they have to be accounted for and unmasked in either case.
 		mr.payloadLength -= int64(n)
 
 		if !mr.c.client {
-			mr.maskKey = mask(p, mr.maskKey)
+			mr.maskKey = mask(p[:n], mr.maskKey)
+		}
+
+		if err != nil {
+			return n, err
 		}
 
 		return n, nil
